@@ -195,6 +195,15 @@ def run_query_case(case):
             b.froms = froms
         b.build()
         builders[qi] = b
+        q = case["qs"][qi - 1]
+        if "declare" in q and "tree" not in q:
+            # what the cache keys are sorted by: the order in which the query's variables were created (variables shared
+            # with an earlier query of the case were created by that one) - recorded, as the graph dump is
+            keys = q.get("varkeys", list(range(1, len(q["vars"]) + 1)))
+            ids = {i: getattr(b.vars[keys[i - 1]], "_id_", None) for i in range(1, len(q["vars"]) + 1) if keys[i - 1] in b.vars}
+            if len(ids) == len(q["vars"]) and all(isinstance(v, int) for v in ids.values()):
+                out["qs"] = list(out["qs"])
+                out["qs"][qi - 1] = dict(q, declare=sorted(ids, key=lambda i: ids[i]))
 
     def build_failed(e):
         out["build_exc"] = exc_name(e) + ": " + str(e)[:200]
